@@ -44,7 +44,10 @@ SPEC = PropSpec(
     rule=("one run = one seeded configuration (capacity, bucket size, max_swaps, fingerprint bytes, auto_expand, "
           "expansion rate, plain/counting, hash strategy) and a history of <=40 add/remove/expand calls; every "
           "random.choice/randint the library makes is answered by the simulator (strategy or explicit tape); "
-          "kicking insertions are additionally re-executed from a deep-copied pre-state under up to 4 other tapes. "
+          "kicking insertions are additionally re-executed from a deep-copied pre-state under up to 4 other tapes, and in "
+          "1 run in 3 under EVERY tape (complete enumeration of the decision tree of that insertion, capped at 300 "
+          "branches: other_counters.fan_all_complete / fan_all_ops); expansion rates 1, 2, 3; sizing by bytes or by error "
+          "rate. "
           "non-trivial = at least one eviction decision or expansion actually happened; distinct = distinct "
           "event-log digests (ops, arguments, decisions consumed, outcomes)"),
     state_measure="distinct bucket-table contents reached after an operation",
